@@ -55,8 +55,8 @@ mutant('C20', 'c20-unbounded-pipe-zero', PIPE,
        "            if delay > 0:\n                await suspend(delay=delay, until=None)\n",
        'UnboundedPipe.transfer', 'zero delay branch dropped')
 mutant('C20', 'c20-pipe-while-guard', PIPE,
-       "        while True:\n            window_start",
-       "        while transferred < total:\n            window_start",
+       "            while True:\n                window_start",
+       "            while transferred < total:\n                window_start",
        'Pipe.transfer', 'the original defect F3')
 mutant('C20', 'c20-interval-zero', TIMING,
        "        elif remaining_delay > 0:\n            await suspend(delay=remaining_delay, until=None)\n        else:\n            await postpone()",
@@ -218,3 +218,56 @@ twin('C11', 'c11-twin-temp', STREAMS,
      "                    yield buffer.popleft()\n",
      "                    message = buffer.popleft()\n                    yield message\n",
      'temporary for the popped message')
+
+# ------------------------------------------------------------------------- C13
+mutant('C13', 'c13-no-finally', PIPE,
+       "        finally:\n            # stop occupying bandwidth however the transfer ends\n            self._del_subscriber(identifier)",
+       "        except Exception:\n            raise\n        self._del_subscriber(identifier)",
+       'P transfer', 'the original defect F2: signals bypass the clean-up')
+mutant('C13', 'c13-del-no-throttle', PIPE,
+       "        del self._subscriptions[identifier]\n        self._throttle_subscribers()",
+       "        del self._subscriptions[identifier]",
+       'K _del_subscriber', 'remaining transfers never speed up')
+mutant('C13', 'c13-scale-no-wake', PIPE,
+       "            self._throughput_scale = self.throughput / desired_throughput\n            self._congested.__awake_all__()",
+       "            self._throughput_scale = self.throughput / desired_throughput",
+       'K scale-store', 'running transfers keep their old plan')
+mutant('C13', 'c13-wait-outside-subscription', PIPE,
+       "                with self._congested.__subscription__():\n                    delay = (total - transferred) / window_throughput",
+       "                if True:\n                    delay = (total - transferred) / window_throughput",
+       'K wait', 'transfers do not listen for congestion changes')
+mutant('C13', 'c13-delay-ignores-progress', PIPE,
+       "                    delay = (total - transferred) / window_throughput",
+       "                    delay = total / window_throughput",
+       'A transfer:planned-delay', 're-planned windows wait for the whole volume again')
+mutant('C13', 'c13-delay-unscaled', PIPE,
+       "                    delay = (total - transferred) / window_throughput",
+       "                    delay = (total - transferred) / throughput",
+       'A transfer:planned-delay', 'congestion is ignored when planning')
+mutant('C13', 'c13-accounting-unscaled', PIPE,
+       "                transferred += (window_end - window_start) * window_throughput",
+       "                transferred += (window_end - window_start) * throughput",
+       'A transfer:accounting', 'progress is over-counted under congestion')
+mutant('C13', 'c13-scale-inverted', PIPE,
+       "            self._throughput_scale = self.throughput / desired_throughput",
+       "            self._throughput_scale = desired_throughput / self.throughput",
+       'A scale', 'scale > 1 under congestion')
+mutant('C13', 'c13-scale-guard-ge', PIPE,
+       "        if desired_throughput > self.throughput:",
+       "        if desired_throughput < self.throughput:",
+       'A scale', 'uncongested pipes are slowed down')
+mutant('C13', 'c13-rate-after-wait', PIPE,
+       "                window_end = time.now\n                transferred += (window_end - window_start) * window_throughput",
+       "                window_end = time.now\n                window_throughput = throughput * self._throughput_scale\n                transferred += (window_end - window_start) * window_throughput",
+       'A transfer', 'the rate after the change is applied to the past window')
+mutant('C13', 'c13-unbounded-delay', PIPE,
+       "            delay = total / throughput\n", "            delay = throughput / total\n",
+       'A unbounded', 'inverted delay')
+twin('C13', 'c13-twin-rearranged-delay', PIPE,
+     "                    delay = (total - transferred) / window_throughput",
+     "                    remaining = total - transferred\n                    delay = remaining / (self._throughput_scale * throughput)",
+     'same formula, other arrangement')
+twin('C13', 'c13-twin-flipped-guard', PIPE,
+     "        if desired_throughput > self.throughput:",
+     "        if self.throughput < desired_throughput:",
+     'a > b <-> b < a')
